@@ -153,6 +153,7 @@ def run(tier, replay):
     ctx.add_part("vector replay", vectors=want, evaluations=s["evaluations"], serialise_parse_roundtrips_on_real_code=s["roundtrips"],
                  mismatches=s["mismatches"], attributed=s["dev_hits"])
     report_harness(ctx, s, "vectors")
+    ctx.add_part("binding self-test", **selftest(hbin, vectors))
 
     # ---- the client against the scripted server -------------------------------------------------------------
     g = gen["client"]
@@ -188,6 +189,13 @@ def run(tier, replay):
     with open(tr, "w") as f:
         f.write(p.stdout)
     jobs = [("resp", lambda: tlc("Trace_HttpResp.tla", "Trace_HttpResp.cfg", env={"TRACE": tr}, deque=True, heap="3g"))]
+    # trace binding self-test: the first records with one logged field flipped must be rejected by TLC
+    recs = [json.loads(x) for x in p.stdout.splitlines()[:24]]
+    victim = next(i for i, x in enumerate(recs) if x["k"] == "parse")
+    recs[victim]["got"]["body"][1] = "0" * 16
+    trs = os.path.join(work, "random-selftest-%d.ndjson" % os.getpid())
+    vlib.write_lines(trs, recs)
+    jobs.append(("resp-selftest", lambda: tlc("Trace_HttpResp.tla", "Trace_HttpResp.cfg", env={"TRACE": trs}, deque=True, heap="1g")))
     ctr = os.path.join(work, "client-%d.ndjson" % os.getpid())
     nruns = 1500 if thorough else 250
     if client_ok:
@@ -197,7 +205,13 @@ def run(tier, replay):
         with open(ctr, "w") as f:
             f.write(p2.stdout)
         jobs.append(("client", lambda: tlc("Trace_Client.tla", "Trace_Client.cfg", env={"TRACE": ctr}, deque=True, heap="3g")))
-    tv = par(jobs, 2)
+    tv = par(jobs, 3)
+    t = tv["resp-selftest"]
+    os.remove(trs)
+    sv = t.prints[-1] if t.prints else {}
+    if [x["line"] for x in sv.get("rejected", [])] != [victim + 1]:
+        raise vlib.ToolError("trace self-test: a corrupted record (line %d) was not the one rejected by Trace_HttpResp: %s" % (victim + 1, sv))
+    ctx.cov["parts"]["binding self-test"]["corrupted_trace_record_rejected"] = True
     t = tv["resp"]
     ctx.add_tlc("trace validation of %d random large responses (Trace_HttpResp)" % n, t)
     verdict = t.prints[-1] if t.prints else None
@@ -214,7 +228,7 @@ def run(tier, replay):
     if verdict["rejected"]:
         rej = verdict["rejected"]
         ctx.violation("%d+ random case(s) rejected by Trace_HttpResp; first: line %d (%s) fails %s" % (len(rej), rej[0]["line"], rej[0]["k"], rej[0]["fails"]),
-                      {"kind": "trace", "mode": "trace-resp", "rejected": rej, "records": [json.loads(lines[x["line"] - 1]) for x in rej[:5]]})
+                      {"kind": "trace", "mode": "trace-resp", "seed": ctx.seed, "n": n, "rejected": rej, "records": [json.loads(lines[x["line"] - 1]) for x in rej[:5]]})
     elif t.violation:
         raise vlib.ToolError("Trace_HttpResp failed without a verdict: %s" % t.out[-1500:])
     os.remove(tr)
@@ -231,7 +245,7 @@ def run(tier, replay):
         if verdict["rejected"] or not verdict["complete"]:
             rej = verdict["rejected"]
             ctx.violation("client event log not explained by Client.tla; first: %s" % json.dumps(rej[:1])[:1200],
-                          {"kind": "trace", "mode": "trace-client", "rejected": rej})
+                          {"kind": "trace", "mode": "trace-client", "seed": ctx.seed, "n": nruns, "rejected": rej})
         elif t.violation:
             ctx.require_tlc_ok("Trace_Client", t)
         os.remove(ctr)
@@ -254,6 +268,27 @@ def run(tier, replay):
     return ctx.finish()
 
 
+def selftest(hbin, vectors):
+    """One flipped expected value per vector kind must make the harness report a mismatch (otherwise the
+    replay would be comparing nothing): tool error, not a verdict about the code."""
+    import copy
+    pv = copy.deepcopy(next(x for x in vectors if x["k"] == "p" and x["exp"]["body"]))
+    pv["exp"]["body"] += "a"
+    sv = copy.deepcopy(next(x for x in vectors if x["k"] == "s" and x["r"]["headers"]))
+    sv["r"]["headers"][0]["v"] += "x"          # the harness builds the response from r; the accepted lines are unchanged,
+    sv["lines"] = [l + "!" for l in sv["lines"]]  # so a changed status line expectation must be noticed
+    cv = copy.deepcopy(next(x for x in vectors if x["k"] == "c" and len(x["avs"]) >= 2))
+    cv["avs"] = cv["avs"][1:]
+    out = {}
+    for name, v in (("parse", pv), ("ser", sv), ("cookie", cv)):
+        p = run_bin(hbin, ["replay", "1"], stdin_data=json.dumps(v) + "\n")
+        s = summary_of(p, "self-test")
+        if not s["mismatches"]:
+            raise vlib.ToolError("binding self-test: a corrupted %s vector was not rejected by the harness" % name)
+        out[name + "_corrupted_rejected"] = True
+    return out
+
+
 def report_harness(ctx, s, where):
     for dev, cnt in s.get("dev_hits", {}).items():
         ctx.violation("CRLF follows a non-empty body in %d serialisations of the %s (got = RenderResp(r) + what Dev={%s} predicts, every other class equal); e.g. %s"
@@ -266,18 +301,47 @@ def report_harness(ctx, s, where):
 
 
 def replay_case(ctx, hbin, path):
-    """--replay <file>: re-run the stored failing vectors / behaviour on the current tree."""
+    """--replay <file>: run the stored failing case(s) again on the current tree.  Vector and behaviour cases are fed
+    to the harness again; trace cases (observations of random runs) are regenerated from the stored seed and
+    validated by TLC again.  Exit 1 when the case still fails, 0 when it no longer does."""
     case = json.load(open(path)).get("case", {})
     mode = case.get("mode")
-    if mode == "client" and case.get("stdin"):
+    ctx.level = "other"
+    ctx.cov["explanation"] = "replay of %s (mode %s): the stored case is run again on the current tree" % (os.path.basename(path), mode)
+    work = vlib.workdir("C07")
+    if mode == "replay":
+        vecs = [x["vector"] for x in case.get("first", []) if "vector" in x] or [x for x in case.get("vectors", [])]
+        p = run_bin(hbin, ["replay", "3"], stdin_data="\n".join(json.dumps(x) for x in vecs) + "\n")
+        s = summary_of(p, "replay")
+        ctx.cov["evaluations"] = s["evaluations"]
+        ctx.cov["samples"] = vecs[:2]
+        report_harness(ctx, s, "replayed vectors")
+    elif mode == "client" and case.get("stdin"):
         p = run_bin(hbin, ["client", "2"], stdin_data="\n".join(json.dumps(x) for x in case["stdin"]) + "\n")
         s = summary_of(p, "client")
-        ctx.cov["evaluations"] = s.get("evaluations", 0)
-        if s.get("mismatches"):
+        if not s.get("available"):
+            raise vlib.ToolError("cannot replay the client case: " + s.get("reason", "?"))
+        ctx.cov["evaluations"] = s["evaluations"]
+        ctx.cov["samples"] = case["stdin"][:1]
+        if s["mismatches"]:
             ctx.violation("replayed client behaviour still fails: %s" % json.dumps(s["first"][:1])[:1500], case)
+    elif mode in ("trace-resp", "trace-client") and "seed" in case:
+        os.environ["VERIF_SEED"] = str(case["seed"])
+        args, mod = (["random", str(case["n"]), "65536"], "Trace_HttpResp") if mode == "trace-resp" else (["client-random", str(case["n"])], "Trace_Client")
+        p = run_bin(hbin, args)
+        tr = os.path.join(work, "replay-%d.ndjson" % os.getpid())
+        with open(tr, "w") as f:
+            f.write(p.stdout)
+        t = tlc(mod + ".tla", mod + ".cfg", env={"TRACE": tr}, deque=True, heap="3g")
+        os.remove(tr)
+        v = t.prints[-1] if t.prints else None
+        if v is None:
+            raise vlib.ToolError("trace validation gave no verdict: " + t.out[-1000:])
+        ctx.cov["evaluations"] = case["n"]
+        ctx.cov["samples"] = v["rejected"][:2] or [{"n": v["n"], "rejected": 0}]
+        if v["rejected"] or v.get("complete") is False:
+            ctx.violation("replayed random run (seed %s) is still rejected by %s: %s" % (case["seed"], mod, json.dumps(v["rejected"][:1])[:1200]), case)
     else:
-        vlib.log("replay: this case kind is re-checked by a full run; running the quick tier")
+        vlib.log("replay: unknown case kind; running the quick tier")
         return run("quick", None)
-    ctx.cov["samples"] = [case.get("stdin", case)][:1]
-    ctx.cov["distinct_nontrivial"] = 0
     return ctx.finish()
